@@ -62,7 +62,8 @@ def run_case(rep, rng, ci, dev, cfg, texts, recs_all):
         opts = runs.make_options(td, solve_time=cfg["solve_time"], dt_init=2e-3, dt_max=5e-2, adaptive=True,
                                  save_every=20, terminal_psi=tp, include_screening=cfg["screening"],
                                  screening_tolerance=1e-2)
-        runs.traced_solve(dev, opts, A=cfg["field"], currents=cur, on_step=on_step, before_step=before)
+        _, solver_ = runs.traced_solve(dev, opts, A=cfg["field"], currents=cur, on_step=on_step, before_step=before)
+        runs.report_threading(rep, solver_, {"run": "C06 plan"})
     if tp is None and moved[0] < 1e-6 and cfg["current"] != 0:
         rep.violation("terminal_psi=None but the terminal sites did not evolve (still pinned?)",
                       {"run": ci, "max_change": moved[0]})
